@@ -36,9 +36,15 @@ def run(ctx):
     # failing repository tests are not this machinery's business: their traces are still validated
     rejects = []
     states = 0
-    B = 500
-    for i in range(0, len(traces), B):
-        res = tlc.trace_batch(os.path.join(VERIF, "specs", "Stack", "HciMonitor.tla"), os.path.join(VERIF, "specs", "Stack", "HciMonitor.cfg"), traces[i : i + B], tag="hcimon")
+    B = 150 if ctx.quick else 500
+    import concurrent.futures
+
+    def one(i):
+        return i, tlc.trace_batch(os.path.join(VERIF, "specs", "Stack", "HciMonitor.tla"), os.path.join(VERIF, "specs", "Stack", "HciMonitor.cfg"), traces[i : i + B], tag="hcimon")
+
+    with concurrent.futures.ThreadPoolExecutor(max_workers=4) as ex:
+        results = list(ex.map(one, range(0, len(traces), B)))
+    for i, res in results:
         states += res["states"]
         for tid, v in res["verdicts"].items():
             if v[0] != "ACCEPT":
